@@ -129,6 +129,25 @@ def runW (x : W Act α) (st : σ) : S σ α := ofM (do
     | some (.error e) => pure (.error (zerr e, st))
     | none => M.panic "rs2lean: checked operation")
 
+/-- `serialiser(writer, …)?` for a serialiser that only writes (`T: Write`): its chunks, one `write_all`
+each (`M.writeChunks`), then its own outcome -/
+def runWB (x : W Bytes α) (st : σ) : S σ α := ofM (do
+  let r ← M.attempt (M.writeChunks x.log)
+  match r with
+  | .error e => pure (.error (e, st))
+  | .ok _ =>
+    match x.res with
+    | some (.ok a) => pure (.ok a)
+    | some (.error e) => pure (.error (zerr e, st))
+    | none => M.panic "rs2lean: checked operation")
+
+/-- `for x in xs.iter() { body }` where the body changes no variable of the enclosing function and leaves
+only through `?` -/
+def forEach {γ : Type} (xs : List γ) (body : γ → S σ Unit) : S σ Unit :=
+  match xs with
+  | [] => pure ()
+  | x :: rest => do body x; forEach rest body
+
 /-- the method as a step of the model's writer: outcome and final `self` -/
 def run (x : S σ (α × σ)) : M (Except ZErr α × σ) := toM x >>= fun r => match r with
   | .ok (a, s) => pure (.ok a, s)
@@ -153,6 +172,9 @@ def get_plain (i : Inner) : Option Unit :=
   match i with
   | .storer none => some ()
   | _ => none
+
+/-- `inner.unwrap()`: the bare sink, by value; panics unless `Storer(Unencrypted(_))` -/
+def unwrap_sink (i : Inner) : Option Unit := get_plain i
 
 /-- `w.write(buf)` on the `&mut dyn Write` of `ref_mut()`: a plain storer hands the buffer to the
 sink (one `write` call, the sink's count); the ZipCrypto layer buffers it; an encoder consumes it
